@@ -100,6 +100,8 @@ def records(rng, delim=":", nrec=None, max_syn=3, forbid_delim=True, patterns=Tr
     """A valid strict record collection (protocol records) with overlapping URI prefixes."""
     if nrec is None:
         nrec = rng.choice([1, 2, 2, 3, 3, 4, 5, 6])
+    if nrec == 0:
+        return []
     n_uri = nrec + rng.randint(0, min(max_syn * nrec, 5))
     n_pfx = nrec + rng.randint(0, min(max_syn * nrec, 4))
     if prefix_free:
